@@ -122,6 +122,8 @@ def ensure_facts(config="default", repo=None, verbose=True):
         shutil.rmtree(tmp, ignore_errors=True)
         os.makedirs(tmp)
         target = TARGET if repo == REPO else os.environ.get("QV_TARGET", TARGET)
+        if config != "default":
+            target = target + "-" + config  # one build directory per feature configuration
         try:
             _run_qfacts(tmp, config, repo, target)
             if os.path.exists(QSYN_BIN):
